@@ -223,3 +223,75 @@ def flatten_fm(fm):
                 else:
                     out["%s/%s/%s" % (ac, kind, key)] = val
     return out
+
+
+# ---- Galilean kernel lemma (used by C11): the pipeline sees the wind and the aircraft velocity only through their difference -------------
+def galilean_lemma(ck, tier):
+    """twin run of the numeric pipeline: run A with wind W and Earth-frame velocity v, run B with W + U and v + U (U arbitrary, uniform).
+    Every cut array, the residual for an arbitrary circulation and every integrated result are equal.  This justifies keying the
+    lifting-line contract stub (LLsolve) of the analysis harnesses on the air-relative state."""
+    import z3
+    from symx.explore import explore
+    from symx.harness import Finding
+    from symx.smt import Obligation
+    from symx.values import SR, sym, zexpr, ctx, Ctx
+    from symx.facade import wrap
+    from checks import twin as TW
+    from checks.C04 import build
+    from checks.families import family_G
+    plan = [("m1", 2)] + ([("g3", 2)] if tier == "thorough" else [])
+    for member, N in plan:
+        label = "Hker Galilean shift %s" % member
+
+        def run(member=member, N=N):
+            c = ctx()
+            c.where_assume_true = True
+            q = [sym("q%d" % i) for i in range(4)]
+            c.declare_unit(q)
+            U = [sym("U0"), sym("U1"), sym("U2")]
+            stA = {"q": q, "p": [sym("px"), sym("py"), sym("pz")], "v": [sym("vx"), sym("vy"), sym("vz")], "w": [sym("wp"), sym("wq"), sym("wr")],
+                   "W": [sym("W0"), sym("W1"), sym("W2")]}
+            stB = dict(stA, v=[a + b for a, b in zip(stA["v"], U)], W=[a + b for a, b in zip(stA["W"], U)])
+            gam = None
+
+            def pipeline(sc):
+                nonlocal gam
+                sc._perform_geometry_and_atmos_calcs()
+                sc._calc_invariant_flow_properties()
+                if gam is None:
+                    gam = wrap(np.array([sym("gam%d" % i) for i in range(sc._N)], dtype=object))
+                R = sc._lifting_line_residual(gam)
+                sc._FM = {}
+                sc._integrate_forces_and_moments(body_frame=True, stab_frame=True, wind_frame=True, report_by_segment=True)
+                return {"R": list(R), "FM": flatten_fm(sc._FM)}
+            tw = TW.Twin(TW.Transform(name="Galilean shift"), align=False)
+            full = dict(use_swept_sections=True, use_total_velocity=True, use_in_plane=True)
+            outA, outB, scA, scB = tw.run(lambda: build(family_G(member, N=N), stA, full, N), lambda: build(family_G(member, N=N), stB, full, N), pipeline)
+            return {"A": outA, "B": outB, "tw": tw}
+        res = explore(run, max_paths=4)
+        ck.add_paths(res)
+        for p in res:
+            lab = "%s path%s" % (label, "".join("1" if d else "0" for d in p.decisions))
+            if not p.ok:
+                ck.inconc("%s: %s %r %s" % (lab, p.kind, p.exc, (p.tb or "")[-500:]))
+                continue
+            Ctx.cur = p.ctx
+            v = p.value
+            tw, A, B = v["tw"], v["A"], v["B"]
+            mk = lambda ob, member=member: Finding("twin", {"analysis": "solve_forces", "form": "vector", "what": ob.label}, ob.label, ob.model)
+            obs = list(tw.obligs)
+            for ob in obs:
+                ob.label = lab + " " + ob.label
+            for i, (ra, rb) in enumerate(zip(A["R"], B["R"])):
+                obs.append(tw.result_obligation("%s residual[%d] invariant" % (lab, i), rb, ra))
+            obs.append(Obligation(lab + " result key set", [], z3.BoolVal(set(A["FM"]) == set(B["FM"]))))
+            for k in sorted(set(A["FM"]) & set(B["FM"])):
+                obs.append(tw.result_obligation("%s %s invariant" % (lab, k), B["FM"][k], A["FM"][k]))
+            for ob in obs:
+                ob.meta["finding"] = mk
+            cg = zexpr(SR(B["FM"]["p/total/Fz"])) == zexpr(SR(A["FM"]["p/total/Fz"])) + 1
+            obs += [Obligation(lab + " canary", tw._facts_for(p.ctx, cg), cg, canary=True),
+                    Obligation(lab + " reach", list(p.ctx.assumptions) + list(p.ctx.pc), z3.BoolVal(True), witness=True)]
+            ck.add(obs)
+            ck.sample({"case": label, "cut_obligations": len(tw.obligs), "result_keys": len(A["FM"])})
+        Ctx.cur = None
